@@ -171,6 +171,7 @@ func ParseContractFile(path string) (*ContractFile, error) {
 				return nil, errf("frame wants: frame <kind> <func> #<n> <justification>: text")
 			}
 			n, _ := strconv.Atoi(m[3])
+			_ = n
 			cf.Frames = append(cf.Frames, FrameDecl{Kind: m[1], Func: strings.TrimSpace(m[2]), Ordinal: n, Why: m[4], Text: strings.TrimSpace(m[5]), Line: l.no})
 		case "func":
 			cur = &FuncSpec{Name: rest, Loops: map[int]*LoopSpec{}, Sites: map[string]*SiteSpec{}, Options: map[string]string{}, File: path, Line: l.no}
